@@ -478,6 +478,8 @@ class DiffProperty:
         for j in range(n):
             a = self.project(it[j]) if j < len(it) else "<none>"
             b = self.project(st[j]) if j < len(st) else "<none>"
+            if b.endswith("*") and a.startswith(b[:-1]):
+                continue   # the specification leaves this observation open
             if a != b:
                 r["spec"] = (j, a, b)
                 break
